@@ -369,11 +369,27 @@ func runKahn(c *Ctx, gf *graphFields) {
 
 	// K2: the normal return is dominated by the leftover-edge scan whose positive branch panics
 	var pan *ssa.Panic
-	core.Instrs(ks, func(in ssa.Instruction) {
+	p.RegionInstrs(ks, func(in ssa.Instruction) {
 		if pp, ok := in.(*ssa.Panic); ok {
 			pan = pp
 		}
 	})
+	// when the scan lives in a private step, the step's call in KahnSort stands for it
+	inKs := func(b *ssa.BasicBlock) *ssa.BasicBlock {
+		f := b.Parent()
+		for i := 0; i < 4 && f != ks; i++ {
+			sites := p.Callers(f)
+			if len(sites) != 1 {
+				return nil
+			}
+			b = sites[0].Block()
+			f = b.Parent()
+		}
+		if f != ks {
+			return nil
+		}
+		return b
+	}
 	scanOK := false
 	var scanHeader *ssa.BasicBlock
 	if pan != nil {
@@ -385,7 +401,7 @@ func runKahn(c *Ctx, gf *graphFields) {
 						if r.level == "inner" && r.field == "out" && onCopy(r.base) {
 							if n, ok := extractNext(call.Common().Args[0]); ok {
 								scanOK = true
-								scanHeader = n.Block()
+								scanHeader = inKs(n.Block())
 							}
 						}
 					}
@@ -468,7 +484,7 @@ func runKahn(c *Ctx, gf *graphFields) {
 	// K3: every popped vertex is appended exactly once (unconditionally in the work-list body)
 	// K4: a successor is pushed only when its in-adjacency is empty after the edge was removed
 	var rem ssa.CallInstruction
-	for _, call := range core.Calls(ks, core.GRemoveEdge) {
+	for _, call := range p.RegionCalls(ks, core.GRemoveEdge) {
 		rem = call
 	}
 	pushOK, appendOK, initOK := false, false, false
@@ -480,11 +496,23 @@ func runKahn(c *Ctx, gf *graphFields) {
 				if rg, ok := nx.Iter.(*ssa.Range); ok {
 					r := c.classifyMap(gf, rg.X)
 					if r.level == "inner" && r.field == "out" && onCopy(r.base) && r.keyV == n {
-						// L = append(L, hash[n]) in the block that starts this range
-						for _, in := range rg.Block().Instrs {
+						// L = append(L, hash[n]) in the block that starts this range — or, when the release of n's successors is a
+						// private step handed n, in the block of that step's call (before the call)
+						emitBlock, emitN := rg.Block(), n
+						var before ssa.Instruction
+						if prm, isPrm := n.(*ssa.Parameter); isPrm && prm.Parent() != ks && p.PrivateHelper(prm.Parent()) {
+							if sites := p.Callers(prm.Parent()); len(sites) == 1 {
+								emitBlock, before = sites[0].Block(), sites[0]
+								emitN = core.Strip(p.Bind(prm))
+							}
+						}
+						for _, in := range emitBlock.Instrs {
+							if before != nil && in == before {
+								break
+							}
 							if call, ok := in.(*ssa.Call); ok && core.CalleeName(call.Common()) == "builtin.append" {
 								for _, s := range appendedValues(call) {
-									if lk, ok := s.(*ssa.Lookup); ok && lk.Index == n {
+									if lk, ok := s.(*ssa.Lookup); ok && (lk.Index == emitN || core.Strip(lk.Index) == emitN) {
 										if hr := c.classifyMap(gf, lk.X); hr.level == "hash" && onCopy(hr.base) {
 											appendOK = true
 										}
@@ -497,7 +525,7 @@ func runKahn(c *Ctx, gf *graphFields) {
 			}
 		}
 		// push of m guarded by len(in[m]) == 0, evaluated after RemoveEdge
-		core.Instrs(ks, func(in ssa.Instruction) {
+		core.Instrs(rem.Parent(), func(in ssa.Instruction) {
 			call, ok := in.(*ssa.Call)
 			if !ok {
 				return
@@ -566,6 +594,9 @@ func runKahn(c *Ctx, gf *graphFields) {
 	})
 	c.R.Add("KAHN", "initial-worklist", name, p.Pos(ks.Pos()), initOK, "the work list starts with exactly the vertices whose in-adjacency is empty", fmt.Sprintf("ok=%v", initOK))
 	c.R.Add("KAHN", "emit-once", name, p.Pos(ks.Pos()), appendOK, "each vertex taken from the work list is appended to the order unconditionally, before its out-edges are processed", fmt.Sprintf("ok=%v", appendOK))
+	hz := sliceReuseHazard(p, ks)
+	c.R.Add("KAHN", "work-list-not-overwritten-while-read", name, p.Pos(ks.Pos()), hz == "",
+		"the storage of the work list is not re-used for the vertices released in a round while that round is still being read", ternary(hz == "", "no append onto a shortened alias of a list still read", hz))
 	c.R.Add("KAHN", "push-when-free", name, p.Pos(ks.Pos()), pushOK, "a successor enters the work list only when, after removing the edge, it has no incoming edge left", fmt.Sprintf("ok=%v", pushOK))
 }
 
